@@ -87,6 +87,30 @@ func (x *Exec) evalBool(env *Env, c *Clause) (res string) {
 	return v.Term
 }
 
+// evalBoolAtCall evaluates a callee postcondition at a call site; ok=false when it refers to an identifier that
+// only exists inside the callee.
+func (x *Exec) evalBoolAtCall(env *Env, c *Clause) (res string, ok bool) {
+	defer func() {
+		if r := recover(); r != nil {
+			if ee, isEE := r.(evalError); isEE {
+				if strings.HasPrefix(ee.msg, "unknown identifier") {
+					res, ok = "true", false
+					return
+				}
+				x.bindErrors = append(x.bindErrors, fmt.Sprintf("%s:%d: %s: %s", c.File, c.Line, c.Src, ee.msg))
+				res, ok = "true", false
+				return
+			}
+			panic(r)
+		}
+	}()
+	v := env.eval(c.Expr)
+	if v.K != KLeaf {
+		env.fail("clause is not boolean")
+	}
+	return v.Term, true
+}
+
 func (x *Exec) invEnv(st *State, head *ssa.BasicBlock) *Env {
 	pkg := x.fn.Pkg.Pkg
 	return &Env{x: x, st: st, old: x.entry, names: x.params, pkg: pkg, pkgPath: pkg.Path(), fn: x.fn, atBlock: head}
@@ -293,7 +317,7 @@ func (e *Env) constVal(c *types.Const) *Value {
 // local resolves a local variable (ssa.Alloc by source name) visible at the loop head.
 func (e *Env) local(name string) *Value {
 	x := e.x
-	var best *ssa.Alloc
+	var best, undefined *ssa.Alloc
 	fr := e.st.frames[0]
 	for _, b := range e.fn.Blocks {
 		for _, ins := range b.Instrs {
@@ -301,6 +325,7 @@ func (e *Env) local(name string) *Value {
 			if !ok || a.Comment != name {
 				continue
 			}
+			undefined = a
 			if _, defined := fr.regs[a]; !defined {
 				continue
 			}
@@ -311,6 +336,11 @@ func (e *Env) local(name string) *Value {
 		}
 	}
 	if best == nil {
+		if undefined != nil && e.proving {
+			// the local is not in scope on this path (e.g. an early return): its value is arbitrary
+			et := undefined.Type().Underlying().(*types.Pointer).Elem()
+			return x.freshValue(e.st, et, "outofscope_"+name)
+		}
 		return nil
 	}
 	pv := fr.regs[best]
@@ -828,6 +858,14 @@ func (e *Env) call(n *ast.CallExpr) *Value {
 			e.fail("sends: ghost not initialised")
 		}
 		return intLeaf(fmt.Sprintf("(select %s %s)", g.Term, ch.Term))
+	case "recvdnil":
+		// recvdnil(ch): some value received from ch so far by the function was the nil interface
+		ch := e.eval(n.Args[0])
+		g := e.view().ghost["$recvnil"]
+		if g == nil {
+			e.fail("recvdnil: ghost not initialised")
+		}
+		return boolLeaf(fmt.Sprintf("(select %s %s)", g.Term, ch.Term))
 	case "lastsent":
 		ch := e.eval(n.Args[0])
 		g := e.view().ghost["$lastsent"]
@@ -1242,7 +1280,7 @@ func (x *Exec) havocLocation(env *Env, c *Clause) {
 			panic(r)
 		}
 	}()
-	if ce, ok := c.Expr.(*ast.CallExpr); ok && identName(ce.Fun) == "all" {
+	if ce, ok := c.Expr.(*ast.CallExpr); ok && (identName(ce.Fun) == "all" || identName(ce.Fun) == "elems") {
 		ks := x.eng.allKeysOf(env.pkgPath, ce)
 		if len(ks) == 0 {
 			env.fail("cannot resolve %s", c.Src)
